@@ -250,7 +250,7 @@ def backRun (t : TableInfo) (dotsFor : Nat → Nat) (e : Engine) (a : Args) : Ba
   let input := decodeInput a.mode dotsFor src
   let ini : EngInit := { mode := a.mode, typebuf := [], haveEmphasis := false, srcSpacing := none }
   let cpos : Int := match a.cursor with | some c => c | none => -1
-  let s0 : BackState := { input := input, posMapping := [], output := [], inlen := a.inbuf.length,
+  let s0 : BackState := { input := input, posMapping := [], output := [], inlen := src.length,
                           cpos := cpos, cstat := 0, hist := [], first := true, failed := false }
   (backPassList t).foldl (backStep e ini a.outlen) s0
 
